@@ -597,7 +597,13 @@ def _demand_at(cst, sst, cred, V):
         if cred in ("ed25519",) and V < (3, 3):
             return False, "eddsa needs 1.2"
         if k.startswith("dhe"):
-            if not (cst.minKeySize <= 2048 <= cst.maxKeySize):
+            # the group the server may pick has to fit the client's key
+            # size policy (named groups carry their size in the name)
+            cand = [g for g in cst.dhGroups if g in sst.dhGroups] \
+                if cst.dhGroups else list(sst.dhGroups) or ["ffdhe2048"]
+            sizes = [int(g[5:]) for g in cand if g.startswith("ffdhe")] or \
+                [2048]
+            if not all(cst.minKeySize <= z <= cst.maxKeySize for z in sizes):
                 return False, "dh size"
             # RFC 7919: a client that lists FFDHE groups gets DHE only
             # with one of them; one that lists none gets the server's own
